@@ -28,6 +28,10 @@ def cases_for(ctx, rng, maxl, quick):
             for br in dict.fromkeys(brs):
                 for rep in range(1 if quick else 3):
                     cases.append(dc.make_case(rng, LA, LB, br, ecpL=None if max(LA, LB) < 4 else rng.choice([1, 2])))
+            # equal-parameter coincidences: a generally contracted pair (same exponents, other coefficients) and twins
+            if LA == LB and (not quick or LA <= 2):
+                for br, tw in (("A=B", "exps"), ("A=B", "same"), ("distinct", "exps")):
+                    cases.append(dc.make_case(rng, LA, LB, br, ecpL=rng.choice([1, 2]), twin=tw))
     return cases
 
 
@@ -47,6 +51,31 @@ def main(ctx, order=ORDER, pid=PID, tags=TAGS, maxl=MAXL, props="C02", oracle=No
     drv, res, corr_fail, crash, worst = dc.run_cases(ctx, order, cases, tags)
     ctx.obligation("correspondence: Lean assembly of the shifted-shell blocks = the real routines' matrices (rel 1e-13)",
                    not corr_fail, json.dumps(corr_fail[:2])[:1500])
+    # the shifted blocks themselves: derivative engine with shifts = plain engine with genuinely shifted shells
+    srng = random.Random(ctx.seed * 13 + order)
+    scases = []
+    for LA in range(maxl + 1):
+        for LB in range(maxl + 1):
+            if quick and (LA + LB + ctx.seed) % 2 and max(LA, LB) > 1:
+                continue
+            # ECP angular momentum below, at and above the basis angular momentum
+            scases.append(dc.make_case(srng, LA, LB, dc.BRANCHES[(LA + 2 * LB) % 5] if (LA + LB) % 3 else "distinct", ecpL=[1, 2, 3, 0][(LA + LB) % 4]))
+    with ThreadPoolExecutor(16) as ex:
+        sres = list(ex.map(lambda c: dc.shift_check(drv, c, order), scases))
+    shift_fail, shift_worst, nshift = [], 0.0, 0
+    for c, r in zip(scases, sres):
+        if r is None:
+            crash.append({"case": c["lines"], "what": "shifted-block comparison crashed", "class": (c["LA"], c["LB"], c["branch"])})
+            continue
+        w, sc, n, where = r
+        nshift += n
+        if sc > 0:
+            shift_worst = max(shift_worst, w / sc)
+        if w > 1e-12 * sc + 1e-300:
+            shift_fail.append({"case": c["lines"], "class": (c["LA"], c["LB"], c["branch"], c["ecpL"]),
+                               "what": "compute_shell_pair with shift (%s) on an engine built for derivative order %d differs from the block a plain engine computes for the genuinely shifted shells by %.3g (largest element %.3g)" % (where, order, w, sc), "hard": True})
+    ctx.obligation("shifted blocks of the derivative engine = blocks of genuinely shifted shells on a plain engine (rel 1e-12)", not shift_fail,
+                   json.dumps(shift_fail[:1])[:800])
     classes = {}
     for c in cases:
         classes[c["branch"]] = classes.get(c["branch"], 0) + 1
@@ -74,10 +103,11 @@ def main(ctx, order=ORDER, pid=PID, tags=TAGS, maxl=MAXL, props="C02", oracle=No
             or_fail.append(f)
     ctx.coverage.update({"cases": len(cases), "classes_LA_LB": (maxl + 1) ** 2, "branches": classes,
                          "traces_validated_against_impl": len(cases) - len(crash), "correspondence_worst_rel": worst,
-                         "oracle_cases": len(ocases), "oracle_worst_relative_deviation": or_worst})
+                         "oracle_cases": len(ocases), "oracle_worst_relative_deviation": or_worst,
+                         "shifted_blocks_compared": nshift, "shifted_blocks_worst_rel": shift_worst})
     ctx.sample({"case": cases[0]["lines"], "class": (cases[0]["LA"], cases[0]["LB"], cases[0]["branch"])})
     ctx.sample({"case": cases[-1]["lines"], "class": (cases[-1]["LA"], cases[-1]["LB"], cases[-1]["branch"])})
-    hard = [f for f in or_fail if f.get("hard")]
+    hard = shift_fail + [f for f in or_fail if f.get("hard")]
     if crash:
         ctx.violation("failing-input", crash[0]["what"], {"input": crash[0], "n_failing": len(crash)}, True)
     elif hard:
